@@ -186,6 +186,18 @@ func runC01(c *core.Ctx) {
 					}, nil)
 					c.Check(tgt == nil, "R2", name+"/single-send", p.InstrPos(sinfo.Sel),
 						"no second enqueue reachable after the send state", "a second enqueue is reachable after the send state (payload duplicated)", p.PathString(path, tgt)...)
+					// the payload is queued and will be transmitted: the call may no longer report an error
+					bad, bpath := core.Search(nil, st.Body, func(in ssa.Instruction) core.Action {
+						if ret, ok := in.(*ssa.Return); ok {
+							if isNil, has := errResultIsNilConst(ret); has && !isNil {
+								return core.Target
+							}
+							return core.Barrier
+						}
+						return core.Continue
+					}, nil)
+					c.Check(bad == nil, "R2", name+"/no-error-after-enqueue", p.InstrPos(sinfo.Sel),
+						"every return after the send state reports success", "an error return is reachable after the payload was enqueued (the call reports failure, the bytes are still transmitted)", p.PathString(bpath, bad)...)
 					continue
 				}
 				// non-send state: all reachable returns carry a non-nil error expression, and no send follows
